@@ -4,7 +4,8 @@ sequences on the real framework and reports canonical observations.
 
 stdin:  {"cases": [ {"pool": [C, ...], "setup": [["add"|"remove", class id, sub-layer class id], ...], "root": class id, "ops": [op, ...]}, ... ]}
   C  = {"id": class id, "base": id of the generated class it derives from | None, "a": alias, "x": instantiable?,
-        "own_layers": declares LAYERS = {} in its body?, "h": [[hid, [[src, tag, contextual, form], ...]], ...]}
+        "own_layers": declares LAYERS = {} in its body?, "h": [[hid, [[src, tag, contextual, form], ...]], ...],
+        "pre" / "post": method lists ("h" format) of the plain mixin classes listed before / after the layer base}
        decorators are listed in APPLICATION order (innermost first); form = "source" | "instance"
   op = ["inst", path, alias] | ["destroy", path, name] | ["send", path, dst, tag] | ["set", path, v]
        | ["save"] | ["load"] | ["restart"]   (path = list of names from the root, names/aliases/tags are strings)
@@ -54,25 +55,31 @@ class Run:
                 return built[nid]
             t = nodes[nid]
             base = mk(t["base"]) if t.get("base") is not None else (ContextualLayer if t["x"] else Layer)
-            attrs = {}
-            for hid, decos in t["h"]:
-                f = self.mk_handler(hid)
-                for src, tag, ctx, form in decos:
-                    if form == "instance":
-                        d = instance(src) if tag == "default" else instance(src, tag=tag)
-                    elif tag == "default" and not ctx:
-                        d = source(src)
-                    else:
-                        d = source(src, tag, contextual=bool(ctx))
-                    f = d(f)
-                attrs["h%03d" % hid] = f      # no decorator at all: a plain method (may hide a base handler)
+            def methods(hs):
+                out = {}
+                for hid, decos in hs:
+                    f = self.mk_handler(hid)
+                    for src, tag, ctx, form in decos:
+                        if form == "instance":
+                            d = instance(src) if tag == "default" else instance(src, tag=tag)
+                        elif tag == "default" and not ctx:
+                            d = source(src)
+                        else:
+                            d = source(src, tag, contextual=bool(ctx))
+                        f = d(f)
+                    out["h%03d" % hid] = f    # no decorator at all: a plain method (may hide a base handler)
+                return out
+            attrs = methods(t["h"])
+            # plain mixin classes (no alias, not layers) listed before / after the layer base class
+            pre = tuple(type("MixinA%d_%d" % (nid, j), (object,), methods(m)) for j, m in enumerate(t.get("pre", [])))
+            post = tuple(type("MixinB%d_%d" % (nid, j), (object,), methods(m)) for j, m in enumerate(t.get("post", [])))
             def configure(self, options):
                 run.registry.append(self)
             attrs["configure"] = configure
             if t.get("own_layers"):
                 attrs["LAYERS"] = {}           # the class declares its own (empty) sub-layer dictionary
             self.nclass += 1
-            cls = type("C%d_%s" % (self.nclass, t["a"]), (base,), attrs)
+            cls = type("C%d_%s" % (self.nclass, t["a"]), pre + (base,) + post, attrs)
             built[nid] = alias(t["a"])(cls)
             return built[nid]
         for nid in nodes:
